@@ -1,28 +1,22 @@
 #!/bin/bash
-# Runs the repository's pinned test suite (guard OFF) the way BASELINE.json was produced and
-# compares with its stable_pass list.  usage: tools/baseline.sh [repo_dir]   (default /repo)
+# Runs the repository's pinned test suite (guard OFF) the way BASELINE.json was produced
+# (nextest cannot list the sqllogictest binary here, so the recorded fallback `cargo test` is
+# what produced the ids) and compares with its stable_pass list.
+# usage: tools/baseline.sh [repo_dir] [out_dir]
 REPO=${1:-/repo}
 OUT=${2:-/tmp/verif-baseline}
 mkdir -p "$OUT"
 cd "$REPO" || exit 2
 export RUSTC_WRAPPER= CARGO_NET_OFFLINE=true
-cargo nextest run --workspace --no-fail-fast --tool-config-file pb:/w/lib/nextest.toml --profile pb --test-threads 8 --offline > "$OUT/nextest.log" 2>&1
-cp target/nextest/pb/junit.xml "$OUT/junit.xml" 2>/dev/null
-cargo test --workspace --doc --offline --no-fail-fast > "$OUT/doc.log" 2>&1
-python3 /w/lib/parse_tests.py --kind junit --glob "$OUT/junit.xml" --out "$OUT/junit.json"
-python3 /w/lib/parse_tests.py --kind cargo --log "$OUT/doc.log" --out "$OUT/doc.json"
+cargo test --workspace --no-fail-fast --offline > "$OUT/cargo.log" 2>&1
+python3 /w/lib/parse_tests.py --kind cargo --log "$OUT/cargo.log" --out "$OUT/cargo.json"
 python3 - "$OUT" <<'PY'
 import json, sys
 out = sys.argv[1]
 base = json.load(open('/root/.vp/BASELINE.json'))
 stable = set(base['stable_pass'])
-passed, failed = set(), set()
-for f in ('junit.json', 'doc.json'):
-    try:
-        d = json.load(open(out + '/' + f))
-        passed |= set(d['passed']); failed |= set(d['failed'])
-    except Exception as e:
-        print('cannot read', f, e)
+d = json.load(open(out + '/cargo.json'))
+passed, failed = set(d['passed']), set(d['failed'])
 bad = sorted(t for t in stable if t in failed)
 missing = sorted(t for t in stable if t not in passed and t not in failed)
 print('stable=%d passed=%d failed=%d' % (len(stable), len(passed), len(failed)))
@@ -30,4 +24,7 @@ print('STABLE TESTS NOW FAILING: %d' % len(bad))
 for t in bad: print('  FAIL', t)
 print('stable tests not seen: %d' % len(missing))
 for t in missing[:40]: print('  MISSING', t)
+newfail = sorted(t for t in failed if t not in set(base.get('always_fail', [])) and t not in set(base.get('flaky', [])) and t not in stable)
+print('other failing tests not in always_fail/flaky: %d' % len(newfail))
+for t in newfail[:40]: print('  OTHER-FAIL', t)
 PY
